@@ -159,6 +159,10 @@ def with_values(a, b=None, c=None):
     CALLS.append("with_values")
     return "v=%s;%s;%s" % (a, b, c)
 
+def dup_leaf(x):
+    CALLS.append("dup_leaf")
+    return "dup:%r" % (x,)
+
 def with_runtime(x):
     CALLS.append("with_runtime")
     return x + 1
@@ -189,6 +193,12 @@ def root():
     out["args2"] = dds.keep("/c/args2", with_args, 2)
     out["args3"] = dds.keep("/c/args3", with_args, 3, 2, "y")
     out["rt"] = dds.keep("/c/rt", with_runtime, out["scaled"])
+    # one path kept at two call sites (only one of them runs): the signature registered for the path must not depend on
+    # anything but the code
+    if len("ab") == 2:
+        out["dup"] = dds.keep("/c/dup", dup_leaf, out["scaled"])
+    else:
+        out["dup"] = dds.keep("/c/dup", dup_leaf, out["plain"])
     out["ann"] = annotated()
     return out
 ''',
@@ -203,7 +213,7 @@ import os, importlib
 shipped = importlib.import_module(os.environ.get("CORPUS_PKG", "corp") + ".helpers").shipped
 '''
 
-ALL = ["/c/plain", "/c/scaled", "/c/items", "/c/flag", "/c/pair", "/c/direct", "/c/kw", "/c/href", "/c/batch", "/c/rate", "/c/tags", "/c/unit", "/c/reexp", "/c/ext", "/c/args", "/c/args2", "/c/args3", "/c/rt", "/c/ann_root", "/c/annotated", "/c/top_args"]
+ALL = ["/c/plain", "/c/scaled", "/c/items", "/c/flag", "/c/pair", "/c/direct", "/c/kw", "/c/href", "/c/batch", "/c/rate", "/c/tags", "/c/unit", "/c/reexp", "/c/ext", "/c/args", "/c/args2", "/c/args3", "/c/rt", "/c/dup", "/c/ann_root", "/c/annotated", "/c/top_args"]
 # edits: (name, file, old, new, kept paths whose cone contains the edit [besides the root], value must change for these)
 EDITS = [
     ("callee body (transitive)", "corp/helpers.py", "return 10", "return 11", ["/c/scaled", "/c/rt"]),
@@ -227,12 +237,13 @@ EDITS = [
     ("unrelated definition added", "corp/helpers.py", "def untouched():", "def brand_new():\n    return 0\n\ndef untouched():", []),
     ("non-accepted module body", "extmod.py", "return x * 100", "return x * 200", []),
 ]
+EDITS = [(n_, f_, o_, w_, (c_ + ["/c/dup"]) if "/c/rt" in c_ else c_) for (n_, f_, o_, w_, c_) in EDITS]
 # which kept paths read the edited variable only through a module attribute (consts.X) / with an untracked value type
 ATTR_READERS = {"str variable": ["/c/annotated"], "list variable": ["/c/items"], "dict variable": ["/c/items"], "bool variable": ["/c/flag"], "tuple variable": ["/c/pair"], "None variable": ["/c/pair"]}
 UNTRACKED_TYPES = {"bool variable", "tuple variable", "None variable"}
 # a function that is referenced (not called) through a module attribute (helpers.neg) is not discovered: nothing tracks the
 # edit, so the later sibling /c/rt (whose call-site context would carry it) is stale for the same reason
-FUN_ATTR_READERS = {"function referenced through a module attribute": ["/c/href", "/c/rt"]}
+FUN_ATTR_READERS = {"function referenced through a module attribute": ["/c/href", "/c/rt", "/c/dup"]}
 KNOWN_EDIT_CLASSES = {}
 
 RUNNER = r'''
@@ -386,7 +397,7 @@ def edit(d, rel, old, new):
     shutil.rmtree(os.path.join(os.path.dirname(p), "__pycache__"), ignore_errors=True)
 
 
-FUN_OF = {"/c/unit": "leaf_unit", "/c/batch": "leaf_batch", "/c/rate": "leaf_rate", "/c/tags": "leaf_tags", "/c/reexp": "leaf_reexp", "/c/top_args": "with_values", "/c/kw": "leaf_kw", "/c/href": "leaf_href", "/c/direct": "leaf_direct", "/c/plain": "leaf_plain", "/c/scaled": "leaf_scaled", "/c/items": "leaf_items", "/c/flag": "leaf_flag", "/c/pair": "leaf_pair", "/c/ext": "leaf_ext", "/c/args": "with_args:1", "/c/args2": "with_args:2", "/c/args3": "with_args:3", "/c/rt": "with_runtime", "/c/annotated": "annotated", "/c/ann_root": "root"}
+FUN_OF = {"/c/dup": "dup_leaf", "/c/unit": "leaf_unit", "/c/batch": "leaf_batch", "/c/rate": "leaf_rate", "/c/tags": "leaf_tags", "/c/reexp": "leaf_reexp", "/c/top_args": "with_values", "/c/kw": "leaf_kw", "/c/href": "leaf_href", "/c/direct": "leaf_direct", "/c/plain": "leaf_plain", "/c/scaled": "leaf_scaled", "/c/items": "leaf_items", "/c/flag": "leaf_flag", "/c/pair": "leaf_pair", "/c/ext": "leaf_ext", "/c/args": "with_args:1", "/c/args2": "with_args:2", "/c/args3": "with_args:3", "/c/rt": "with_runtime", "/c/annotated": "annotated", "/c/ann_root": "root"}
 
 
 def main():
@@ -432,8 +443,8 @@ def main():
                     # a module variable of an unsupported type (set / frozenset) is outside the supported subset: it is
                     # identified by where it lives, so its reader (and what depends on the reader's position: the
                     # root, the later sibling with a run-time argument) legitimately differs in the copy
-                    by_location = {"/c/tags", "/c/rt", "/c/ann_root"}
-                    moved = [c_ for c_ in cp["calls"] if c_ not in ("root", "leaf_tags", "with_runtime")]
+                    by_location = {"/c/tags", "/c/rt", "/c/dup", "/c/ann_root"}
+                    moved = [c_ for c_ in cp["calls"] if c_ not in ("root", "leaf_tags", "with_runtime", "dup_leaf")]
                     if cp.get("error") or moved:
                         note(None, "code copied unchanged to another accepted module re-executed %s %s" % (moved, cp.get("error") or ""))
                     diff = [p for p in ALL if cp["sigs"].get(p) != base["sigs"].get(p) and p not in by_location]
